@@ -372,6 +372,15 @@ class Interp:
         for (a, b), s in res:
             if a[0] == 'lit' and isinstance(a[1], bytes) and b[0] == 'lit' and isinstance(b[1], int) and b[1] < len(a[1]):
                 outs.append(Out('val', ('lit', a[1][b[1]]), s))
+            elif a[0] == 'lit' and isinstance(a[1], bytes) and b[0] == 'struct' and b[1].rsplit('::', 1)[-1] in ('RangeFrom', 'RangeTo', 'Range', 'RangeFull') \
+                    and all(v[0] == 'lit' and isinstance(v[1], int) for n_, v in b[2]):
+                fl = dict(b[2])
+                lo = fl['start'][1] if 'start' in fl else 0
+                hi = fl['end'][1] if 'end' in fl else len(a[1])
+                if 0 <= lo <= hi <= len(a[1]):
+                    outs.append(Out('val', ('lit', a[1][lo:hi]), s))
+                else:
+                    outs.append(Out('div', UNIT, s.event(('panic', 'slice index out of range', (a, b), e))))
             else:
                 outs.append(Out('val', ('index', a, b), s.event(('index', a, b, e))))
         return outs + abn
@@ -547,12 +556,51 @@ class Interp:
             return outs
         return self.loop_common(e, st, one, always=True)
 
+    def literal_elems(self, itv):
+        """The elements of an iterator value that is a literal sequence: a range of literals (possibly reversed), literal bytes."""
+        rev = False
+        while itv[0] == 'call' and itv[1].rsplit('::', 1)[-1] in ('rev', 'into_iter', 'iter') and len(itv[2]) == 1:
+            if itv[1].rsplit('::', 1)[-1] == 'rev':
+                rev = not rev
+            itv = itv[2][0]
+        el = None
+        if itv[0] == 'struct' and itv[1].rsplit('::', 1)[-1] in ('Range', 'RangeInclusive'):
+            fl = dict(itv[2])
+            a, b = fl.get('start'), fl.get('end')
+            if a and b and a[0] == 'lit' and b[0] == 'lit' and isinstance(a[1], int) and isinstance(b[1], int) and b[1] - a[1] <= 64:
+                el = [('lit', x) for x in range(a[1], b[1] + (1 if itv[1].endswith('RangeInclusive') else 0))]
+        elif itv[0] == 'lit' and isinstance(itv[1], bytes) and len(itv[1]) <= 64:
+            el = [('lit', x) for x in itv[1]]
+        if el is None:
+            return None
+        return list(reversed(el)) if rev else el
+
     def ev_For(self, e, st):
         outs = []
         for o in self.ev(e['iter'], st):
             if o.kind != 'val':
                 outs.append(o); continue
             itv = o.val
+            lits = self.literal_elems(itv) if not self.for_once else None
+            if lits is not None:
+                # a loop over a literal sequence runs exactly over its elements
+                states = [o.st]
+                for x in lits:
+                    nxt = []
+                    for s0 in states:
+                        for kind, s2 in self.match(e['pat'], x, s0):
+                            if kind == 'no':
+                                continue
+                            for b in self.ev(e['body'], s2):
+                                if b.kind == 'val' or (b.kind == 'cont' and (b.target is None or b.target == e.get('id'))):
+                                    nxt.append(b.st)
+                                elif b.kind == 'brk' and (b.target is None or b.target == e.get('id')):
+                                    outs.append(Out('val', UNIT, b.st))
+                                else:
+                                    outs.append(b)
+                    states = nxt
+                outs.extend(Out('val', UNIT, s0) for s0 in states)
+                continue
             if self.for_once:
                 def body_outs(s0, itv=itv):
                     res = []
@@ -1201,7 +1249,9 @@ def bin_term(op, a, b):
             r = {'Add': lambda: x + y, 'Sub': lambda: x - y, 'Mul': lambda: x * y,
                  'Eq': lambda: x == y, 'Ne': lambda: x != y, 'Lt': lambda: x < y, 'Le': lambda: x <= y,
                  'Gt': lambda: x > y, 'Ge': lambda: x >= y, 'BitAnd': lambda: x & y, 'BitOr': lambda: x | y,
-                 'Shl': lambda: x << y, 'Shr': lambda: x >> y}.get(op)
+                 'BitXor': lambda: x ^ y, 'Shl': lambda: x << y, 'Shr': lambda: x >> y,
+                 'Div': lambda: (abs(x) // abs(y)) * (1 if (x >= 0) == (y >= 0) else -1),     # Rust: truncation towards zero
+                 'Rem': lambda: x - y * ((abs(x) // abs(y)) * (1 if (x >= 0) == (y >= 0) else -1))}.get(op)
             if r is not None:
                 return ('lit', r())
         except Exception:
@@ -1474,6 +1524,29 @@ def builtin_summary(I, cal, args, node, st):
             return [Out('val', ('vec', arr[0][1]), st)]
     if cal.endswith('alloc::vec::Vec::<T>::new') or cal.endswith('alloc::vec::Vec::<T>::with_capacity'):
         return [Out('val', ('vec', ()), st)]
+    if name in ('to_be_bytes', 'to_le_bytes') and cal.startswith('core::num::<impl ') and len(args) == 1 and args[0][0] == 'lit' and isinstance(args[0][1], int):
+        ity = cal[len('core::num::<impl '):].split('>')[0]
+        rng = INT_RANGE.get(ity)
+        if rng is not None:
+            width = {'8': 1, '16': 2, '32': 4, '64': 8, 'size': 8}[ity[1:]]
+            try:
+                bs = args[0][1].to_bytes(width, 'big' if name == 'to_be_bytes' else 'little', signed=ity[0] == 'i')
+                return [Out('val', ('lit', bs), st)]
+            except OverflowError:
+                pass
+    if name == 'skip' and ('iterator::Iterator::' in cal or 'Iterator>::' in cal) and len(args) == 2 and args[0][0] == 'lit' and isinstance(args[0][1], bytes) \
+            and args[1][0] == 'lit' and isinstance(args[1][1], int):
+        return [Out('val', ('lit', args[0][1][args[1][1]:]), st)]
+    if name in ('leading_zeros', 'trailing_zeros', 'count_ones') and cal.startswith('core::num::<impl ') and len(args) == 1 and args[0][0] == 'lit' and isinstance(args[0][1], int):
+        ity = cal[len('core::num::<impl '):].split('>')[0]
+        bits = {'8': 8, '16': 16, '32': 32, '64': 64, 'size': 64}.get(ity[1:])
+        if bits:
+            x = args[0][1] & ((1 << bits) - 1)
+            r = {'leading_zeros': bits - x.bit_length(), 'trailing_zeros': (bits if x == 0 else (x & -x).bit_length() - 1), 'count_ones': bin(x).count('1')}[name]
+            return [Out('val', ('lit', r), st)]
+    if name in ('is_negative', 'is_positive') and cal.startswith('core::num::<impl i') and len(args) == 1:
+        x = args[0]
+        return [Out('val', bin_term('Lt', x, ('lit', 0)) if name == 'is_negative' else bin_term('Gt', x, ('lit', 0)), st)]
     if cal == 'alloc::string::String::new' and not args:
         return [Out('val', ('lit', ''), st)]
     if cal.endswith('alloc::boxed::Box::<T>::new') and args:
